@@ -247,6 +247,24 @@ func pointInputs(c *vf.Check, g *groups.G, m *fmod.Model) []input {
 				b[0] |= 0x80 | sign
 				add(fmt.Sprintf("wrong-subgroup/x=%d/sign%02x", xv, sign), b, true)
 			}
+			// the same points in the 96-byte uncompressed form x || y (raw, and with either y), should a decoder take it
+			for yi, yv := range []*big.Int{y, new(big.Int).Sub(curves.BLSP, y)} {
+				u := append(x.FillBytes(make([]byte, 48)), yv.FillBytes(make([]byte, 48))...)
+				add(fmt.Sprintf("wrong-subgroup/uncompressed x=%d y#%d", xv, yi), u, true)
+			}
+		}
+		// the uncompressed form of a genuine member (the base point), for reference: accepted or not, it must not panic
+		// and, if accepted, decode to a member
+		{
+			e := fmod.Enc(m.Gens[0])
+			xb := append([]byte{}, e...)
+			xb[0] &= 0x1f
+			x := new(big.Int).SetBytes(xb)
+			if y := curves.BLSG1SqrtY(x); y != nil {
+				for yi, yv := range []*big.Int{y, new(big.Int).Sub(curves.BLSP, y)} {
+					add(fmt.Sprintf("uncompressed base point y#%d", yi), append(x.FillBytes(make([]byte, 48)), yv.FillBytes(make([]byte, 48))...), true)
+				}
+			}
 		}
 	case lay.chunk == 48 && g.Kind == "G2":
 		b, _ := hex.DecodeString("8123456789abcdef0123456789abcdef0123456789abcdef0123456789abcdef0123456789abcdef0123456789abcdef0123456789abcdef0123456789abcdef0123456789abcdef0123456789abcdef0123456789abcdef0123456789abcdef")
@@ -275,6 +293,17 @@ func pointInputs(c *vf.Check, g *groups.G, m *fmod.Model) []input {
 		} {
 			b, _ := hex.DecodeString(h)
 			add("special/"+h[:8]+".."+h[60:], b, true)
+		}
+	}
+	// encodings of a family of picked members (the bytes a stored length field, a flag or a sign bit lives in take
+	// every value over the family): decoded and put through the later operations like any other input
+	if g.Pick {
+		n := 1200
+		if g.Slow || g.Kind == "G2" || g.Kind == "GT" {
+			n = 150
+		}
+		for i := 0; i < n; i++ {
+			add(fmt.Sprintf("picked-member/%d", i), fmod.Enc(g.Point().Pick(alpha.Stream(fmt.Sprintf("c04-picked-%d", i)))), false)
 		}
 	}
 	return ins
